@@ -219,9 +219,12 @@ def run(tier):
     cmps = cmp_scenarios(rng, 48 if quick else 64)
     rts = rt_scenarios(rng, 200 if quick else 6000)
     wides = wide_scenarios(rng, quick) + widemask_scenarios(rng, quick)
-    post = [{"kind": "postinc", "W": W, "k": "pair", "a": 1, "b": 4, "t": t} for t in TYPES]
+    # the same loops written with the forward iterator's post-increment: every range of the generator (explicit, prefix- and
+    # mask-derived, in all four windows - "top" ends at the all-ones address), the address type rotating
+    post = [dict(s, kind="postinc", t=sorted(TYPES)[i % len(TYPES)]) for i, s in enumerate(rg)]
+    post += [{"kind": "postinc", "W": W, "k": "pair", "a": 1, "b": 4, "t": t} for t in TYPES]
     p = pipeline(W)
-    p.push(post, "postinc", ["--batch", "1", "--scen-timeout", "20"])
+    p.push(post, "postinc", ["--batch", "50", "--scen-timeout", "20"])
     scen = rg + cmps + rts + wides + texts
     chunk = 12000
     for i in range(0, len(scen), chunk):
